@@ -262,6 +262,182 @@ fn guarded<R>(f: impl FnOnce() -> R, show: impl FnOnce(R) -> String) -> String {
     }
 }
 
+// ------------------------------------------------------------------ tokio / futures-io mirrors
+mod asyncio {
+    use super::*;
+    use std::pin::Pin;
+    use std::task::{Context, Poll as P, Wake, Waker};
+    struct W;
+    impl Wake for W {
+        fn wake(self: Arc<Self>) {}
+    }
+    fn with_cx<R>(f: impl FnOnce(&mut Context<'_>) -> R) -> R {
+        let waker = Waker::from(Arc::new(W));
+        let mut cx = Context::from_waker(&waker);
+        f(&mut cx)
+    }
+    fn showp<T: std::fmt::Debug>(p: &P<io::Result<T>>) -> String {
+        match p {
+            P::Pending => "Pending".into(),
+            P::Ready(r) => format!("Ready({})", show_res(r)),
+        }
+    }
+
+    struct PlainTokio(Log);
+    impl tokio::io::AsyncWrite for PlainTokio {
+        fn poll_write(self: Pin<&mut Self>, _cx: &mut Context<'_>, buf: &[u8]) -> P<io::Result<usize>> {
+            self.0.lock().unwrap().push(format!("poll_write({buf:?})"));
+            P::Ready(Ok(buf.len().min(2)))
+        }
+        fn poll_flush(self: Pin<&mut Self>, _cx: &mut Context<'_>) -> P<io::Result<()>> {
+            P::Ready(Ok(()))
+        }
+        fn poll_shutdown(self: Pin<&mut Self>, _cx: &mut Context<'_>) -> P<io::Result<()>> {
+            P::Ready(Ok(()))
+        }
+    }
+    struct PlainFut(Log);
+    impl futures_io::AsyncWrite for PlainFut {
+        fn poll_write(self: Pin<&mut Self>, _cx: &mut Context<'_>, buf: &[u8]) -> P<io::Result<usize>> {
+            self.0.lock().unwrap().push(format!("poll_write({buf:?})"));
+            P::Ready(Ok(buf.len().min(2)))
+        }
+        fn poll_flush(self: Pin<&mut Self>, _cx: &mut Context<'_>) -> P<io::Result<()>> {
+            P::Ready(Ok(()))
+        }
+        fn poll_close(self: Pin<&mut Self>, _cx: &mut Context<'_>) -> P<io::Result<()>> {
+            P::Ready(Ok(()))
+        }
+    }
+    impl futures_io::AsyncRead for PlainFut {
+        fn poll_read(self: Pin<&mut Self>, _cx: &mut Context<'_>, buf: &mut [u8]) -> P<io::Result<usize>> {
+            self.0.lock().unwrap().push(format!("poll_read(len={})", buf.len()));
+            if !buf.is_empty() {
+                buf[0] = 42;
+            }
+            P::Ready(Ok(buf.len().min(1)))
+        }
+    }
+
+    pub fn run(wire: &dyn Fn(&str, bool, String)) {
+        use unimock::mock::futures_0_3::io as fmock;
+        use unimock::mock::tokio_1::io as tmock;
+        // ---- tokio: wiring of every required method
+        {
+            use tokio::io::{AsyncBufRead, AsyncRead, AsyncSeek, AsyncWrite};
+            let mut m = Unimock::new(tmock::AsyncWriteMock::poll_write.next_call(matching!(_, [1, 2])).returns(P::Ready(Ok(2))));
+            let r = guarded(|| with_cx(|cx| Pin::new(&mut m).poll_write(cx, &[1, 2])), |p| showp(&p));
+            wire("wire:tokio::AsyncWrite::poll_write", r == "Ready(Ok(2))", r);
+            let mut m = Unimock::new(tmock::AsyncWriteMock::poll_flush.next_call(matching!(_)).returns(P::Ready(Ok(()))));
+            let r = guarded(|| with_cx(|cx| Pin::new(&mut m).poll_flush(cx)), |p| showp(&p));
+            wire("wire:tokio::AsyncWrite::poll_flush", r == "Ready(Ok(()))", r);
+            let mut m = Unimock::new(tmock::AsyncWriteMock::poll_shutdown.next_call(matching!(_)).returns(P::Pending));
+            let r = guarded(|| with_cx(|cx| Pin::new(&mut m).poll_shutdown(cx)), |p| showp(&p));
+            wire("wire:tokio::AsyncWrite::poll_shutdown", r == "Pending", r);
+            let mut m = Unimock::new(tmock::AsyncReadMock::poll_read.next_call(matching!(_, _)).answers(&|_, _, buf| {
+                buf.put_slice(&[7, 8]);
+                P::Ready(Ok(()))
+            }));
+            let mut store = [0u8; 4];
+            let mut rb = tokio::io::ReadBuf::new(&mut store);
+            let r = guarded(|| with_cx(|cx| Pin::new(&mut m).poll_read(cx, &mut rb)), |p| showp(&p));
+            wire("wire:tokio::AsyncRead::poll_read", r == "Ready(Ok(()))" && rb.filled() == [7, 8], format!("{r} {:?}", rb.filled()));
+            let mut m = Unimock::new((
+                tmock::AsyncBufReadMock::poll_fill_buf.next_call(matching!(_)).returns(P::Ready(Ok::<Vec<u8>, io::Error>(vec![5u8, 6]))),
+                tmock::AsyncBufReadMock::consume.next_call(matching!(1)).returns(()),
+            ));
+            let r = guarded(|| { let v = with_cx(|cx| Pin::new(&mut m).poll_fill_buf(cx).map(|r| r.map(|s| s.to_vec()))); Pin::new(&mut m).consume(1); v }, |p| showp(&p));
+            wire("wire:tokio::AsyncBufRead::poll_fill_buf", r == "Ready(Ok([5, 6]))", r.clone());
+            wire("wire:tokio::AsyncBufRead::consume", r == "Ready(Ok([5, 6]))", r);
+            let mut m = Unimock::new((
+                tmock::AsyncSeekMock::start_seek.next_call(matching!(SeekFrom::Start(4))).returns(Ok(())),
+                tmock::AsyncSeekMock::poll_complete.next_call(matching!(_)).returns(P::Ready(Ok(4))),
+            ));
+            let r = guarded(|| { let a = Pin::new(&mut m).start_seek(SeekFrom::Start(4)); let b = with_cx(|cx| Pin::new(&mut m).poll_complete(cx)); format!("{} {}", show_res(&a), showp(&b)) }, |s| s);
+            wire("wire:tokio::AsyncSeek::start_seek", r == "Ok(()) Ready(Ok(4))", r.clone());
+            wire("wire:tokio::AsyncSeek::poll_complete", r == "Ok(()) Ready(Ok(4))", r);
+            // provided: poll_write_vectored / is_write_vectored run the upstream defaults over poll_write
+            for partial in [false, true] {
+                let (lm, lp) = (newlog(), newlog());
+                let l1 = lm.clone();
+                let clause = tmock::AsyncWriteMock::poll_write.each_call(matching!(_, _)).answers_arc(Arc::new(move |_, _, buf| {
+                    l1.lock().unwrap().push(format!("poll_write({buf:?})"));
+                    P::Ready(Ok(buf.len().min(2)))
+                }));
+                let mut m = if partial { Unimock::new_partial(clause) } else { Unimock::new(clause) }.no_verify_in_drop();
+                let mut p = PlainTokio(lp.clone());
+                let (e, a, b) = (vec![], vec![3u8, 4, 5], vec![6u8]);
+                let bufs = [io::IoSlice::new(&e), io::IoSlice::new(&a), io::IoSlice::new(&b)];
+                let rm = guarded(|| { let x = with_cx(|cx| Pin::new(&mut m).poll_write_vectored(cx, &bufs)); format!("{} {}", showp(&x), m.is_write_vectored()) }, |s| s);
+                let rp = guarded(|| { let x = with_cx(|cx| Pin::new(&mut p).poll_write_vectored(cx, &bufs)); format!("{} {}", showp(&x), p.is_write_vectored()) }, |s| s);
+                diff(&format!("tokio::AsyncWrite::poll_write_vectored#{}", partial as u8), (rm, take(&lm)), (rp, take(&lp)));
+            }
+        }
+        // ---- futures-io
+        {
+            use futures_io::{AsyncBufRead, AsyncRead, AsyncSeek, AsyncWrite};
+            let mut m = Unimock::new(fmock::AsyncWriteMock::poll_write.next_call(matching!(_, [1, 2])).returns(P::Ready(Ok(2))));
+            let r = guarded(|| with_cx(|cx| Pin::new(&mut m).poll_write(cx, &[1, 2])), |p| showp(&p));
+            wire("wire:futures::AsyncWrite::poll_write", r == "Ready(Ok(2))", r);
+            let mut m = Unimock::new(fmock::AsyncWriteMock::poll_flush.next_call(matching!(_)).returns(P::Ready(Ok(()))));
+            let r = guarded(|| with_cx(|cx| Pin::new(&mut m).poll_flush(cx)), |p| showp(&p));
+            wire("wire:futures::AsyncWrite::poll_flush", r == "Ready(Ok(()))", r);
+            let mut m = Unimock::new(fmock::AsyncWriteMock::poll_close.next_call(matching!(_)).returns(P::Pending));
+            let r = guarded(|| with_cx(|cx| Pin::new(&mut m).poll_close(cx)), |p| showp(&p));
+            wire("wire:futures::AsyncWrite::poll_close", r == "Pending", r);
+            let mut m = Unimock::new(fmock::AsyncReadMock::poll_read.next_call(matching!(_, _)).answers(&|_, _, buf| {
+                buf[0] = 9;
+                P::Ready(Ok(1))
+            }));
+            let mut b = [0u8; 2];
+            let r = guarded(|| with_cx(|cx| Pin::new(&mut m).poll_read(cx, &mut b)), |p| showp(&p));
+            wire("wire:futures::AsyncRead::poll_read", r == "Ready(Ok(1))" && b[0] == 9, format!("{r} {b:?}"));
+            let mut m = Unimock::new((
+                fmock::AsyncBufReadMock::poll_fill_buf.next_call(matching!(_)).returns(P::Ready(Ok::<Vec<u8>, io::Error>(vec![5u8, 6]))),
+                fmock::AsyncBufReadMock::consume.next_call(matching!(1)).returns(()),
+            ));
+            let r = guarded(|| { let v = with_cx(|cx| Pin::new(&mut m).poll_fill_buf(cx).map(|r| r.map(|s| s.to_vec()))); Pin::new(&mut m).consume(1); v }, |p| showp(&p));
+            wire("wire:futures::AsyncBufRead::poll_fill_buf", r == "Ready(Ok([5, 6]))", r.clone());
+            wire("wire:futures::AsyncBufRead::consume", r == "Ready(Ok([5, 6]))", r);
+            let mut m = Unimock::new(fmock::AsyncSeekMock::poll_seek.next_call(matching!(_, SeekFrom::End(0))).returns(P::Ready(Ok(11))));
+            let r = guarded(|| with_cx(|cx| Pin::new(&mut m).poll_seek(cx, SeekFrom::End(0))), |p| showp(&p));
+            wire("wire:futures::AsyncSeek::poll_seek", r == "Ready(Ok(11))", r);
+            for partial in [false, true] {
+                let (lm, lp) = (newlog(), newlog());
+                let (l1, l2) = (lm.clone(), lm.clone());
+                let clause = (
+                    fmock::AsyncWriteMock::poll_write.each_call(matching!(_, _)).answers_arc(Arc::new(move |_, _, buf| {
+                        l1.lock().unwrap().push(format!("poll_write({buf:?})"));
+                        P::Ready(Ok(buf.len().min(2)))
+                    })),
+                    fmock::AsyncReadMock::poll_read.each_call(matching!(_, _)).answers_arc(Arc::new(move |_, _, buf| {
+                        l2.lock().unwrap().push(format!("poll_read(len={})", buf.len()));
+                        if !buf.is_empty() {
+                            buf[0] = 42;
+                        }
+                        P::Ready(Ok(buf.len().min(1)))
+                    })),
+                );
+                let mut m = if partial { Unimock::new_partial(clause) } else { Unimock::new(clause) }.no_verify_in_drop();
+                let mut p = PlainFut(lp.clone());
+                let (e, a, b) = (vec![], vec![3u8, 4, 5], vec![6u8]);
+                let bufs = [io::IoSlice::new(&e), io::IoSlice::new(&a), io::IoSlice::new(&b)];
+                let rm = guarded(|| with_cx(|cx| Pin::new(&mut m).poll_write_vectored(cx, &bufs)), |x| showp(&x));
+                let rp = guarded(|| with_cx(|cx| Pin::new(&mut p).poll_write_vectored(cx, &bufs)), |x| showp(&x));
+                diff(&format!("futures::AsyncWrite::poll_write_vectored#{}", partial as u8), (rm, take(&lm)), (rp, take(&lp)));
+                let run = |r: &mut dyn FnMut(&mut Context<'_>, &mut [io::IoSliceMut<'_>]) -> P<io::Result<usize>>| -> String {
+                    let (mut e, mut a) = (vec![], vec![0u8; 3]);
+                    let res = { let mut bufs = [io::IoSliceMut::new(&mut e), io::IoSliceMut::new(&mut a)]; with_cx(|cx| r(cx, &mut bufs)) };
+                    format!("{} {:?}", showp(&res), a)
+                };
+                let rm = guarded(|| run(&mut |cx, bufs| Pin::new(&mut m).poll_read_vectored(cx, bufs)), |s| s);
+                let rp = guarded(|| run(&mut |cx, bufs| Pin::new(&mut p).poll_read_vectored(cx, bufs)), |s| s);
+                diff(&format!("futures::AsyncRead::poll_read_vectored#{}", partial as u8), (rm, take(&lm)), (rp, take(&lp)));
+            }
+        }
+    }
+}
+
 fn main() {
     std::panic::set_hook(Box::new(|_| {}));
     let seed: u64 = std::env::var("VERIF_SEED").ok().and_then(|s| s.parse().ok()).unwrap_or(1);
@@ -475,6 +651,7 @@ fn main() {
         let r = guarded(|| m.delay_ns(5), |_| "()".to_string());
         wire("wire:DelayNs::delay_ns", r == "()", r);
     }
+    asyncio::run(&wire);
     {
         use std::error::Error;
         // Error::source is provided: un-mocked it runs the upstream default (None) on a mock that knows nothing else
